@@ -522,6 +522,7 @@ type T struct {
 	rawLog   *log.Logger
 	s        bitStream
 	draws    int
+	attempts int // draws started, whether or not they produced a value
 	refDraws []any
 	mu       sync.RWMutex
 	failed   stopTest
